@@ -16,8 +16,9 @@ func init() {
 			r("S1b,S1c,S1d,S1f,S1g,S1i", RuleS1("S1b", "S1c", "S1d", "S1f", "S1g", "S1i")),
 			r("K2", RuleK2),
 			r("LJ1", RuleLJ1),
+			r("ES1", RuleES1),
 		},
-		Explanation: "The scanner's 160 step functions are read from the typed syntax as guarded arms (byte sets by set algebra), assembled into a pushdown system (stack = current step + stepStack) whose finite control abstracts the event stack and the distances begin/end offsets depend on; post* saturation computes every reachable (control, step) pair for ALL inputs, and on each the rules check: no end event without begin (S1b), end+1>=begin and inside the input (S1c), no unsigned underflow of curIndex-k (S1d), strictly increasing non-overlapping lexemes (S1f), only trivia skipped (S1g), no lexeme left open at end of input (S1i), spelled keywords == directive table (K2), body lexeme == library extent (LJ1). Decides the structural part; that the library's Len() delimits one value is trusted.",
+		Explanation: "The scanner's 160 step functions are read from the typed syntax as guarded arms (byte sets by set algebra), assembled into a pushdown system (stack = current step + stepStack) whose finite control abstracts the event stack and the distances begin/end offsets depend on; post* saturation computes every reachable (control, step) pair for ALL inputs, and on each the rules check: no end event without begin (S1b), end+1>=begin and inside the input (S1c), no unsigned underflow of curIndex-k (S1d), strictly increasing non-overlapping lexemes (S1f), only trivia skipped (S1g), no lexeme left open at end of input (S1i), spelled keywords == directive table (K2), body lexeme == library extent (LJ1), escape states take the escaped byte blindly (ES1). Decides the structural part; that the library's Len() delimits one value is trusted.",
 		Trusted:     trustedCommon,
 		Assume:      []string{"symbol 0 reaches a step function only as end of input (Scanner.Next rejects NUL; shape-checked)", "data-dependent predicates (isDirective, parameter look-back, data[cur-1]) may go either way"},
 	})
